@@ -162,6 +162,9 @@ pub mod ed25519_dalek {
     use super::super::sp::*;
     use vstd::prelude::*;
     pub const PUBLIC_KEY_LENGTH: usize = 32;
+    pub const SECRET_KEY_LENGTH: usize = 32;
+    pub const SIGNATURE_LENGTH: usize = 64;
+    pub const KEYPAIR_LENGTH: usize = 64;
     #[verifier::external_body]
     pub struct SigningKey { _p: () }
     #[verifier::external_body]
@@ -273,6 +276,9 @@ pub mod base64 {
         spec fn engine_id(&self) -> int;
         fn encode<T: AsRef<[u8]>>(&self, input: T) -> (r: String)
             ensures utf8(r@) == b64_text(self.engine_id(), input.aref()@);
+        /// `encode_string` appends the same text to an existing String
+        fn encode_string<T: AsRef<[u8]>>(&self, input: T, output_buf: &mut String)
+            ensures utf8(final(output_buf)@) == utf8(old(output_buf)@) + b64_text(self.engine_id(), input.aref()@);
         /// strict: accepts exactly the canonical text of some byte string (no padding for
         /// NO_PAD engines, no trailing bits, alphabet of this engine only) -- behaviour of `base64`
         fn decode<T: AsRef<[u8]>>(&self, input: T) -> (r: Result<Vec<u8>, DecodeError>)
@@ -290,6 +296,8 @@ pub mod base64 {
                 open spec fn engine_id(&self) -> int { self.id as int }
                 #[verifier::external_body]
                 fn encode<T: AsRef<[u8]>>(&self, input: T) -> (r: String) { unimplemented!() }
+                #[verifier::external_body]
+                fn encode_string<T: AsRef<[u8]>>(&self, input: T, output_buf: &mut String) { unimplemented!() }
                 #[verifier::external_body]
                 fn decode<T: AsRef<[u8]>>(&self, input: T) -> (r: Result<Vec<u8>, super::super::DecodeError>) { unimplemented!() }
             }
